@@ -304,7 +304,7 @@ META = {
     "technique": "TLA+ decision-table spec Authz.tla: TLC enumerates the input space and checks the documented rule against "
                  "the declarative property on every row; the rows drive the real check.authorize_sender and the real "
                  "submission endpoint; AuthzTrace.tla evaluates the property on what the code answered",
-    "text": "TLC enumerates all 146,180 rows (entitlement tables identity/list/domain wildcard/'*'/absent/prepare_email, "
+    "text": "TLC enumerates all 150,926 rows (entitlement tables identity/list/domain wildcard/'*'/absent/prepare_email, "
             "all 7 normalisation settings, user spellings, MAIL FROM, From layouts incl. several fields, groups, display-name "
             "and encoded-word tricks, Sender; null and postmaster envelope senders, check_header yes/no, SASL mechanism and "
             "authorization identity, a quarantining/rejecting neighbour check, action directives with custom SMTP replies, "
@@ -313,7 +313,7 @@ META = {
             "messages, auth_normalize and from_normalize set independently (49 pairs) over case-twin accounts and addresses, repeated From fields whose later instance lists further mailboxes) "
             "and checks Rule against Prop on each; thorough "
             "runs every row through the real endpoint and every row without SASL/neighbour dimension on the check alone, "
-            "quick a stratified seeded sample (about 10,400 + 6,600, the small families completely); TLC evaluates "
+            "quick a stratified seeded sample (about 15,200 + 9,600, the small families completely); TLC evaluates "
             "Prop/Rule on the recorded decisions.",
     "note": "One-sided (safety) property: an over-strict refusal is drift, not a violation. Header sections are rendered by "
             "the harness; the spelling equivalence of addresses is an assumption of the model.",
